@@ -78,7 +78,7 @@ LEDGER = {
     "C15": dict(profile="mixed", preds=["WellFormed", "SysClean", "NoNegative"],
                 mc=([M("ESDTTransfer,ESDTNFTTransfer,create,handover"), M("ESDTTransfer,flags,mintburn,issue", supply=3)],
                     [M("ESDTTransfer,ESDTNFTTransfer,create,handover"), M("ESDTTransfer,flags,mintburn,issue,roles", supply=3, accsample=6), M("ESDTTransfer,issue,ESDTNFTTransfer,MultiESDTNFTTransfer,mintburn,create,handover", hs=("u0a", "u1a"))]),
-                extra_runs=[("nonce", [], 0.5), ("transfer", [], 0.5)],
+                extra_runs=[("nonce", [], 0.3), ("transfer", [], 0.3)],
                 need=dict(tok_ok=10, supply_ok=10, flag_ok=5, create_ok=5)),
     "C16": dict(profile="gas", flags=["-gassweep"], preds=["P16_Price", "P16_ProbePrice", "P16_Charged"],
                 mc=([M("sched,ESDTTransfer,kv,create,ESDTNFTTransfer,MultiESDTNFTTransfer", gas=(60, 1000), hs=("u0a", "u1a"), rejected=False, accsample=4)],
